@@ -392,6 +392,14 @@ class FnView:
         if s.startswith('"'):
             return ("str", s[1:-1])
         d = self.b.const_def(c, "def")
+        if c.get("promoted"):
+            pv = c.get("pv", "")
+            # `_1 = Enum::Variant; _0 = &_1`  -> the variant path ; otherwise the description
+            import re as _re
+            m = _re.match(r"^_1 = ([A-Za-z_][A-Za-z0-9_:<>]*)(?:\s*\{\s*\})?; _0 = &_1$", pv)
+            if m:
+                return ("k", m.group(1))
+            return ("k", "promoted{" + pv[:200] + "}")
         if d is not None:
             return ("named", d.name)
         f = self.b.const_def(c, "fn")
@@ -548,13 +556,21 @@ def deref(e):
 
 
 def strip_ref(e):
+    """strip references only (named views keep ("let", name, value) wrappers)"""
+    while e[0] == "ref":
+        e = e[1]
+    return e
+
+
+def peel(e):
+    """strip references and variable-name wrappers"""
     while e[0] in ("ref", "let"):
         e = e[1] if e[0] == "ref" else e[2]
     return e
 
 
 def field(e, owner, name):
-    e = strip_ref(e)
+    e = peel(e)
     if owner == "{closure}":
         # captured variable: reads like the variable itself
         return ("param", name[6:] if name.startswith("_ref__") else name, -1)
@@ -574,10 +590,11 @@ def field(e, owner, name):
 
 
 def payload(e):
-    e = strip_ref(e)
+    e0 = strip_ref(e)
+    e = peel(e)
     if e[0] == "wrap":
         return e[1]
-    return ("payload", e)
+    return ("payload", e0 if e0[0] == "let" else e)
 
 
 def find_str(e):
@@ -662,7 +679,7 @@ def render(e):
 
 def typed_name(e):
     """`OwnerType.field` of the last field projection, if any (typed access path)"""
-    e = strip_ref(e)
+    e = peel(e)
     if e[0] == "field":
         owner = e[2].rsplit("::", 1)[-1]
         return f"{owner}.{e[3]}"
